@@ -273,10 +273,11 @@ SPECS = {
     "C05": dict(
         title="Backoff delays stay inside their documented envelope",
         corr=corr("delay", "C05"),
+        extra_prop_files=["theories/Properties/C05Float.v"],
         model_note="Pure/Retry.v next_delay models the five NextDelayMillis methods and retry/utils.go (random source = explicit word stream, math.Pow = oracle value)",
         trusted=COMMON_TRUST,
-        partial=["jitter band: that the two saturated float products are ordered int64 values is a hypothesis of C05_jitter_band_partial (checked per case by the correspondence run, not yet proved with Flocq)",
-                 "exponential 'never below initial' and monotonicity in n depend on float rounding and on math.Pow; only 'value = min(max, saturated product)' and '<= max' are proved",
+        partial=["exponential 'never below initial' is proved for Pow oracle values > 1 (or +Inf / NaN) and, for initial <= 2^53, for >= 1; with a factor of exactly 1.0 and initial > 2^53 the float round-trip loses up to 512 ms (C05_sat_mul_one_below_arg) - unreachable with math.Pow(m > 1, n-1 >= 1) >= 1+2^-52, documented boundary",
+                 "monotonicity in n is relative to monotonicity of the math.Pow oracle values",
                  "attempt numbers < 1 are outside the property"],
         replay_how="each entry: attempt, Pow oracle bits, random words, backoff in prefix notation (F d | E i max mbits | R min max | J lobits hibits <b> | L limit <b>)",
     ),
